@@ -571,7 +571,7 @@ def kani_native_replay(gen, bdir, hname, playback):
     # convention: `mod harness { ... }` is the last item of a Kani template; the playback test goes inside it
     cut = gen.rstrip().rfind("}")
     # units may shadow Vec / vec! with fixed-capacity stand-ins: the playback test must use std's
-    pb = playback.replace("Vec<Vec<u8>>", "std::vec::Vec<std::vec::Vec<u8>>").replace("vec![", "std::vec![")
+    pb = playback.replace("Vec<Vec<u8>>", "::std::vec::Vec<::std::vec::Vec<u8>>").replace("vec![", "::std::vec![")
     open(rp, "w").write(gen[:cut] + "\n" + pb + "\n}\n")
     cmd = ["kani", "playback", "-Z", "concrete-playback", "replay.rs", "--", tname]
     env = dict(os.environ)
